@@ -12,7 +12,10 @@ import (
 	"net"
 	"net/http/httptest"
 	"os"
+	"os/exec"
+	"path/filepath"
 	"sort"
+	"strconv"
 	"strings"
 	"sync"
 	"testing"
@@ -20,6 +23,7 @@ import (
 
 	"verifharness/hx"
 
+	cid "github.com/ipfs/go-cid"
 	logging "github.com/ipfs/go-log/v2"
 	"github.com/ipfs/ipfs-cluster/api"
 	"github.com/ipfs/ipfs-cluster/ipfsconn/ipfshttp"
@@ -52,6 +56,12 @@ type caseIn struct {
 	ID         int               `json:"id"`
 	Op         string            `json:"op"`
 	Mode       string            `json:"mode"`
+	D          string            `json:"d"`     // requested depth of a depth-limited pin ("1", "2"), else ""
+	T          string            `json:"t"`     // history calls: which CID of the pool is the target
+	Hist       int               `json:"hist"`  // history number (0: single script)
+	Pheld      map[string]string `json:"pheld"` // depth the prior recursive pins are held with
+	Calls      []*caseIn         `json:"calls"` // a history: its calls, in order
+	Cold       bool              `json:"cold"`  // run the history in a process of its own (as a cluster peer does)
 	Upd        bool              `json:"upd"`
 	Norig      int               `json:"norig"`
 	Prior      map[string]string `json:"prior"`
@@ -68,15 +78,17 @@ type caseIn struct {
 type specIn struct {
 	Op     string            `json:"op"`
 	Mode   string            `json:"mode"`
+	D      string            `json:"d"`
+	T      string            `json:"t"`
 	Upd    bool              `json:"upd"`
 	Norig  int               `json:"norig"`
 	Prior  map[string]string `json:"prior"`
+	Pheld  map[string]string `json:"pheld"`
 	Intf   string            `json:"intf"`
 	Beh    []string          `json:"beh"`
 	Obeh   []string          `json:"obeh"`
 	Ohang  bool              `json:"ohang"`
 	Cancel bool              `json:"cancel"`
-	Depth  int               `json:"depth"`
 	SwapV  bool              `json:"swapv"`
 }
 
@@ -84,6 +96,7 @@ type specOut struct {
 	Res    string            `json:"res"`
 	Status string            `json:"status"`
 	Pins   map[string]string `json:"pins"`
+	Held   map[string]string `json:"held"`
 	Reqs   []reqLog          `json:"reqs"`
 	Swarm  []int             `json:"swarm"`
 	// ByDeadline: the call returned by itself, well before the caller's own
@@ -100,9 +113,10 @@ type specOut struct {
 }
 
 type rec struct {
-	ID  int     `json:"id"`
-	In  specIn  `json:"in"`
-	Out specOut `json:"out"`
+	ID   int     `json:"id"`
+	Hist int     `json:"hist"`
+	In   specIn  `json:"in"`
+	Out  specOut `json:"out"`
 }
 
 // clusterSvc answers the two RPCs the connector may issue on its own.
@@ -151,32 +165,30 @@ func selfNetProblem(msg string) bool {
 	return false
 }
 
-func runCase(c *caseIn, names *hx.Names, client *rpc.Client) (*rec, error) {
-	// abstract c1 (target) / c2 (source): CIDv0 / CIDv1, or the other way round
-	c1, c2 := names.Cid("c1"), names.Cid("c2")
-	if c.SwapV {
-		c1, c2 = names.Cid("c4"), names.Cid("c3")
-	}
-	d := &daemon{
-		pins:    map[string]string{"c1": c.Prior["c1"], "c2": c.Prior["c2"]},
-		script:  c.Beh,
-		intf:    c.Intf,
-		swarm:   map[int]bool{},
-		names:   map[string]string{c1.String(): "c1", c2.String(): "c2"},
-		origins: map[string]int{},
-		obeh:    c.Obeh,
-		nonJSON: c.ID,
-		done:    make(chan struct{}),
-	}
-	var origins []ma.Multiaddr
-	for i := 1; i <= c.Norig; i++ {
-		a, err := ma.NewMultiaddr(fmt.Sprintf("/ip4/10.16.%d.%d/tcp/4001/p2p/%s", i/250, 1+i%250, names.Peer(fmt.Sprintf("p%d", i)).Pretty()))
-		if err != nil {
-			return nil, err
+// env is one scripted daemon plus one real Connector talking to it; single
+// scripts use a fresh one, a history makes all its calls on the same one.
+type env struct {
+	d     *daemon
+	srv   *httptest.Server
+	conn  *ipfshttp.Connector
+	names *hx.Names
+	once  sync.Once
+}
+
+func (e *env) close() {
+	e.once.Do(func() {
+		close(e.d.done)
+		e.srv.CloseClientConnections()
+		e.srv.Close()
+		if e.conn != nil {
+			e.conn.Shutdown(context.Background())
 		}
-		origins = append(origins, a)
-		d.origins[a.String()] = i
-	}
+	})
+}
+
+func newEnv(names *hx.Names, client *rpc.Client) (*env, error) {
+	d := &daemon{pins: map[string]string{}, held: map[string]string{}, swarm: map[int]bool{},
+		names: map[string]string{}, origins: map[string]int{}, done: make(chan struct{})}
 	// own listener on the IPv4 loopback (httptest.NewServer silently falls back
 	// to [::1] when 127.0.0.1:0 cannot be bound, e.g. transient port exhaustion)
 	l, err := listenLoopback()
@@ -186,23 +198,15 @@ func runCase(c *caseIn, names *hx.Names, client *rpc.Client) (*rec, error) {
 	srv := httptest.NewUnstartedServer(d)
 	srv.Listener = l
 	srv.Start()
-	closed := false
-	closeAll := func() {
-		if !closed {
-			closed = true
-			close(d.done)
-			srv.CloseClientConnections()
-			srv.Close()
-		}
-	}
-	defer closeAll()
-
+	e := &env{d: d, srv: srv, names: names}
 	ta, ok := l.Addr().(*net.TCPAddr)
 	if !ok || ta.IP.To4() == nil {
+		e.close()
 		return nil, fmt.Errorf("listen: unexpected listener address %v", l.Addr())
 	}
 	node, err := ma.NewMultiaddr(fmt.Sprintf("/ip4/%s/tcp/%d", ta.IP.To4().String(), ta.Port))
 	if err != nil {
+		e.close()
 		return nil, err
 	}
 	cfg := &ipfshttp.Config{}
@@ -214,10 +218,43 @@ func runCase(c *caseIn, names *hx.Names, client *rpc.Client) (*rec, error) {
 	cfg.UnpinTimeout = unpinTimeout
 	conn, err := ipfshttp.NewConnector(cfg)
 	if err != nil {
+		e.close()
 		return nil, err
 	}
 	conn.SetClient(client)
-	defer conn.Shutdown(context.Background())
+	e.conn = conn
+	return e, nil
+}
+
+// call makes one scripted call: c1 / c2 are the concrete CIDs playing target
+// and source, prior / pheld the daemon's state for them before the call.
+func (e *env) call(c *caseIn, c1, c2 cid.Cid, prior, pheld map[string]string) (*rec, error) {
+	d, conn, names := e.d, e.conn, e.names
+	if c.Op != "pin" && c.Op != "unpin" && c.Op != "lscid" {
+		return nil, fmt.Errorf("unknown op %q", c.Op)
+	}
+	var origins []ma.Multiaddr
+	omap := map[string]int{}
+	for i := 1; i <= c.Norig; i++ {
+		a, err := ma.NewMultiaddr(fmt.Sprintf("/ip4/10.16.%d.%d/tcp/4001/p2p/%s", i/250, 1+i%250, names.Peer(fmt.Sprintf("p%d", i)).Pretty()))
+		if err != nil {
+			return nil, err
+		}
+		origins = append(origins, a)
+		omap[a.String()] = i
+	}
+	d.mu.Lock()
+	d.pins = map[string]string{"c1": prior["c1"], "c2": prior["c2"]}
+	d.held = map[string]string{"c1": pheld["c1"], "c2": pheld["c2"]}
+	d.script, d.next = c.Beh, 0
+	d.intf, d.intfDone = c.Intf, false
+	d.reqs, d.mismatch = nil, nil
+	d.swarm = map[int]bool{}
+	d.names = map[string]string{c1.String(): "c1", c2.String(): "c2"}
+	d.origins, d.obeh = omap, c.Obeh
+	d.nonJSON = c.ID
+	d.blocked, d.gone = 0, 0
+	d.mu.Unlock()
 
 	opts := api.PinOptions{Name: "c16"}
 	if c.Mode == "direct" {
@@ -231,18 +268,16 @@ func runCase(c *caseIn, names *hx.Names, client *rpc.Client) (*rec, error) {
 	opts.Origins = origins
 	pin := api.PinWithOpts(c1, opts)
 	if c.Mode == "depth" {
-		pin.MaxDepth = 2
-		if c.Depth > 0 {
-			pin.MaxDepth = api.PinDepth(c.Depth)
+		n, err := strconv.Atoi(c.D)
+		if err != nil || n <= 0 {
+			return nil, fmt.Errorf("depth pin without depth: %q", c.D)
 		}
+		pin.MaxDepth = api.PinDepth(n)
 	}
 
 	ctx, cancel := context.WithTimeout(context.Background(), callerDeadline)
 	defer cancel()
 	out := specOut{Reqs: []reqLog{}, Swarm: []int{}, Mismatch: []string{}}
-	if c.Op != "pin" && c.Op != "unpin" && c.Op != "lscid" {
-		return nil, fmt.Errorf("unknown op %q", c.Op)
-	}
 	t0 := time.Now()
 	if c.Cancel {
 		tm := time.AfterFunc(cancelAfter, cancel)
@@ -278,12 +313,13 @@ func runCase(c *caseIn, names *hx.Names, client *rpc.Client) (*rec, error) {
 			out.Status = statusNames[cr.st]
 		}
 	case <-hard.C:
-		// leaked on purpose; it unwinds when the daemon's connections are closed below
+		// leaked on purpose; it unwinds when the daemon's connections are closed
 	}
 	el := time.Since(t0)
 	// observe the daemon at the moment the call returned
 	d.mu.Lock()
 	out.Pins = map[string]string{"c1": d.pins["c1"], "c2": d.pins["c2"]}
+	out.Held = map[string]string{"c1": d.held["c1"], "c2": d.held["c2"]}
 	out.Reqs = append(out.Reqs, d.reqs...)
 	for i := range d.swarm {
 		out.Swarm = append(out.Swarm, i)
@@ -326,15 +362,72 @@ func runCase(c *caseIn, names *hx.Names, client *rpc.Client) (*rec, error) {
 			}
 		}
 	}
-	closeAll()
 	nz := func(s []string) []string {
 		if s == nil {
 			return []string{}
 		}
 		return s
 	}
-	return &rec{ID: c.ID, In: specIn{Op: c.Op, Mode: c.Mode, Upd: c.Upd, Norig: c.Norig, Prior: c.Prior, Intf: c.Intf,
-		Beh: nz(c.Beh), Obeh: nz(c.Obeh), Ohang: c.Ohang, Cancel: c.Cancel, Depth: c.Depth, SwapV: c.SwapV}, Out: out}, nil
+	return &rec{ID: c.ID, Hist: c.Hist, In: specIn{Op: c.Op, Mode: c.Mode, D: c.D, Upd: c.Upd, Norig: c.Norig,
+		Prior: map[string]string{"c1": prior["c1"], "c2": prior["c2"]},
+		Pheld: map[string]string{"c1": pheld["c1"], "c2": pheld["c2"]}, Intf: c.Intf,
+		Beh: nz(c.Beh), Obeh: nz(c.Obeh), Ohang: c.Ohang, Cancel: c.Cancel, SwapV: c.SwapV, T: c.T}, Out: out}, nil
+}
+
+// runCase: one script on a fresh daemon and a fresh Connector.
+func runCase(c *caseIn, names *hx.Names, client *rpc.Client) (*rec, error) {
+	e, err := newEnv(names, client)
+	if err != nil {
+		return nil, err
+	}
+	defer e.close()
+	// abstract c1 (target) / c2 (source): CIDv0 / CIDv1, or the other way round
+	c1, c2 := names.Cid("c1"), names.Cid("c2")
+	if c.SwapV {
+		c1, c2 = names.Cid("c4"), names.Cid("c3")
+	}
+	return e.call(c, c1, c2, c.Prior, c.Pheld)
+}
+
+// runHistory: the calls of a history on ONE Connector and one daemon. Every
+// call is recorded with the daemon's actual state before it, so each call is
+// judged on its own.
+func runHistory(calls []*caseIn, names *hx.Names, client *rpc.Client) ([]*rec, error) {
+	var e *env
+	var err error
+	for i := 0; i < 6; i++ {
+		if e, err = newEnv(names, client); err == nil || !selfNetProblem(err.Error()) {
+			break
+		}
+		time.Sleep(time.Duration(150*(i+1)) * time.Millisecond)
+	}
+	if err != nil {
+		return nil, err
+	}
+	defer e.close()
+	pool := map[string]cid.Cid{"A": names.Cid("c1"), "B": names.Cid("c2"), "C": names.Cid("c3")}
+	src := map[string]string{"A": "B", "B": "C", "C": "A"}
+	st := map[string]string{"A": "none", "B": "none", "C": "none"}
+	held := map[string]string{"A": "", "B": "", "C": ""}
+	var out []*rec
+	for _, c := range calls {
+		t, s := c.T, src[c.T]
+		if _, ok := pool[t]; !ok {
+			return nil, fmt.Errorf("history call without target: %q", t)
+		}
+		r, err := e.call(c, pool[t], pool[s], map[string]string{"c1": st[t], "c2": st[s]},
+			map[string]string{"c1": held[t], "c2": held[s]})
+		if err != nil {
+			return nil, err
+		}
+		st[t], st[s] = r.Out.Pins["c1"], r.Out.Pins["c2"]
+		held[t], held[s] = r.Out.Held["c1"], r.Out.Held["c2"]
+		out = append(out, r)
+		if r.Out.Res == "never" {
+			break // the connector is wedged: nothing more to learn from this instance
+		}
+	}
+	return out, nil
 }
 
 // runSteady repeats a script when the call took much longer than the timers
@@ -383,6 +476,73 @@ func runSteady(c *caseIn, names *hx.Names, client *rpc.Client) (*rec, error) {
 	}
 }
 
+// runCold runs one history in a fresh copy of this test binary: the Connector
+// then lives in a process that has made no other call before, as in a cluster
+// peer (state kept anywhere in the process shows only this way).
+func runCold(c *caseIn) ([]*rec, error) {
+	dir, err := os.MkdirTemp(os.Getenv("VERIF_WORK"), "c16cold-")
+	if err != nil {
+		return nil, err
+	}
+	defer os.RemoveAll(dir)
+	in, out := filepath.Join(dir, "in.json"), filepath.Join(dir, "out.json")
+	b, _ := json.Marshal(c.Calls)
+	if err := os.WriteFile(in, b, 0644); err != nil {
+		return nil, err
+	}
+	ctx, cancel := context.WithTimeout(context.Background(), 5*time.Minute)
+	defer cancel()
+	cmd := exec.CommandContext(ctx, os.Args[0], "-test.run", "^TestColdHistory$", "-test.count", "1")
+	cmd.Env = append(os.Environ(), "VERIF_C16_COLD_IN="+in, "VERIF_C16_COLD_OUT="+out, "VERIF_OUT="+filepath.Join(dir, "res.json"))
+	if ob, err := cmd.CombinedOutput(); err != nil {
+		tail := string(ob)
+		if len(tail) > 600 {
+			tail = tail[len(tail)-600:]
+		}
+		return nil, fmt.Errorf("cold history process: %v: %s", err, tail)
+	}
+	rb, err := os.ReadFile(out)
+	if err != nil {
+		return nil, err
+	}
+	var recs []*rec
+	if err := json.Unmarshal(rb, &recs); err != nil {
+		return nil, err
+	}
+	return recs, nil
+}
+
+// TestColdHistory is the child side of runCold (does nothing on its own).
+func TestColdHistory(t *testing.T) {
+	in, out := os.Getenv("VERIF_C16_COLD_IN"), os.Getenv("VERIF_C16_COLD_OUT")
+	if in == "" || out == "" {
+		t.Skip("only run by TestDriver")
+	}
+	logging.SetAllLoggers(logging.LevelFatal)
+	logging.SetLogLevel("ipfshttp", "fatal")
+	b, err := os.ReadFile(in)
+	if err != nil {
+		t.Fatal(err)
+	}
+	var calls []*caseIn
+	if err := json.Unmarshal(b, &calls); err != nil {
+		t.Fatal(err)
+	}
+	client, err := rpcClient()
+	if err != nil {
+		t.Fatal(err)
+	}
+	names := hx.NewNames(hx.Seed())
+	recs, err := runHistory(calls, names, client)
+	if err != nil {
+		t.Fatal(err)
+	}
+	rb, _ := json.Marshal(recs)
+	if err := os.WriteFile(out, rb, 0644); err != nil {
+		t.Fatal(err)
+	}
+}
+
 func TestDriver(t *testing.T) {
 	logging.SetAllLoggers(logging.LevelFatal)
 	logging.SetLogLevel("ipfshttp", "fatal")
@@ -426,7 +586,7 @@ func TestDriver(t *testing.T) {
 	// hx.Names is not concurrency-safe: every name used below exists by now (reads only)
 
 	workers := hx.EnvInt("VERIF_C16_WORKERS", 48)
-	recs := make([]*rec, len(cases))
+	recs := make([][]*rec, len(cases))
 	errs := make([]error, len(cases))
 	var wg sync.WaitGroup
 	ch := make(chan int)
@@ -435,7 +595,18 @@ func TestDriver(t *testing.T) {
 		go func() {
 			defer wg.Done()
 			for i := range ch {
-				recs[i], errs[i] = runSteady(cases[i], names, client)
+				if len(cases[i].Calls) > 0 && cases[i].Cold {
+					recs[i], errs[i] = runCold(cases[i])
+					continue
+				}
+				if len(cases[i].Calls) > 0 {
+					recs[i], errs[i] = runHistory(cases[i].Calls, names, client)
+					continue
+				}
+				var r *rec
+				if r, errs[i] = runSteady(cases[i], names, client); r != nil {
+					recs[i] = []*rec{r}
+				}
 			}
 		}()
 	}
@@ -451,13 +622,23 @@ func TestDriver(t *testing.T) {
 	}
 	defer outf.Close()
 	enc := json.NewEncoder(outf)
-	for i, r := range recs {
+	for i, rs := range recs {
 		if errs[i] != nil {
 			res.Infra("case %d: %v", cases[i].ID, errs[i])
 			continue
 		}
-		enc.Encode(r)
-		res.Case(map[string]interface{}{"in": r.In, "out": map[string]interface{}{"res": r.Out.Res, "status": r.Out.Status,
-			"pins": r.Out.Pins, "requests": len(r.Out.Reqs)}}, cases[i].Nontrivial)
+		for _, r := range rs {
+			enc.Encode(r)
+			res.Case(map[string]interface{}{"in": r.In, "out": map[string]interface{}{"res": r.Out.Res, "status": r.Out.Status,
+				"pins": r.Out.Pins, "held": r.Out.Held, "requests": len(r.Out.Reqs)}},
+				cases[i].Nontrivial || len(cases[i].Calls) > 0)
+		}
 	}
+	nh := 0
+	for _, c := range cases {
+		if len(c.Calls) > 0 {
+			nh++
+		}
+	}
+	res.Set("histories_replayed", nh)
 }
